@@ -231,10 +231,13 @@ class Model:
 
     def parser_methods(self):
         """name -> Func as visible on DDLParser (first definition on the MRO)."""
+        if getattr(self, "_pm", None) is not None:
+            return self._pm
         out = {}
         for k in self.parser_mro():
             for n, f in self.classes[k].methods.items():
                 out.setdefault(n, f)
+        self._pm = out
         return out
 
     def all_funcs(self):
